@@ -46,7 +46,7 @@ REQUIRED = dict(monitors=['restricted-equals-full', 'restricted-grid-is-subset',
                          'emission:same-size-window', 'emission:star-written-between-evaluations',
                          'request:work-array-refilled-in-place', 'request:foreign-ending-on-an-end-point',
                          'table:empty-far-wing:exp', 'table:empty-far-wing:linear', 'request:own-sub-range-clear-of-the-empty-wing',
-                         'request:foreign-a-hair-off-the-native-points', 'sequence:own-grid-then-same-ends-and-count'])
+                         'request:foreign-a-hair-off-the-native-points', 'sequence:own-grid-then-same-ends-and-count', 'history:dozens-of-ranges-then-earlier-ranges-again'])
 CUT = math.exp(-10.0)
 
 
@@ -398,11 +398,11 @@ def wl_binning(ctx, rng):
     ctx.sig('binning', spec['nlayers'], k, int(kindw), len(native), round(spec['planet_mass'], 6))
 
 
-def make_opacity(rng, layout, wing=False):
+def make_opacity(rng, layout, wing=False, nwn_min=3):
     make_opacity.clear = None
     from taurex.opacity import InterpolatingOpacity
     Fake = world.fake_opacity_class()
-    wn = world.wn_grid(rng, int(rng.integers(3, 60)))
+    wn = world.wn_grid(rng, int(rng.integers(max(3, nwn_min), 60)))
     T, P, x = world.make_table(rng, ['thin', 'mixed', 'saturating'][rng.integers(0, 3)], int(rng.integers(2, 5)),
                                int(rng.integers(2, 5)), wn)
     mode = ['linear', 'exp'][rng.integers(0, 2)]
@@ -491,7 +491,8 @@ def wl_opacity(ctx, rng):
     count as the native grid, a shifted copy of the native grid, and the native grid again."""
     layout = ['xsec', 'ktable'][rng.integers(0, 2)]
     ctx.observe('layout:' + layout)
-    op, wn, T, P = make_opacity(rng, layout, wing=bool(rng.random() < 0.25))
+    long = ctx.case['index'] % 15 == 3
+    op, wn, T, P = make_opacity(rng, layout, wing=bool(rng.random() < 0.25), nwn_min=20 if long else 3)
     clear = make_opacity.clear
     t = float(rng.uniform(T[0] * 0.7, T[-1] * 1.2))
     p = float(10 ** rng.uniform(np.log10(P[0]) - 1, np.log10(P[-1]) + 1))
@@ -506,6 +507,13 @@ def wl_opacity(ctx, rng):
              'foreign-a-hair-off-the-native-points']
     kinds += [extra[k] for k in rng.integers(0, len(extra), int(rng.integers(1, 5)))]
     kinds = [kinds[k] for k in rng.permutation(len(kinds))]
+    if long:
+        # a long history on one opacity object (it lives in the cache and serves every model of the process): dozens to
+        # hundreds of different spectral ranges, then ranges it has served long before
+        nr = int(rng.integers(50, 110)) if ctx.tier == 'quick' else int(rng.integers(150, 600))
+        kinds = ['own-sub-range' if rng.random() < 0.7 else 'foreign-random' for _ in range(nr)]
+        kinds += ['repeat:%d' % int(rng.integers(0, max(nr - 40, 1))) for _ in range(int(rng.integers(10, 25)))]
+        ctx.observe('history:dozens-of-ranges-then-earlier-ranges-again')
     if ctx.case['index'] % 5 == 0:
         # a deliberate order: the table's own grid first, then another grid with the same ends and the same count
         kinds = ['own-full', 'foreign-same-ends-and-count'] + kinds
@@ -513,8 +521,12 @@ def wl_opacity(ctx, rng):
     done = []
     led = own.Ledger(ctx, 'opacity-requests')
     work = {}                   # the caller's work arrays, one per length: refilled in place for the next request
+    asked = []
     for kind in kinds:
-        if kind == 'own-sub-range-clear-of-the-empty-wing':
+        if kind.startswith('repeat:'):
+            grid = asked[int(kind[7:]) % len(asked)].copy()
+            kind = 'range-served-long-before'
+        elif kind == 'own-sub-range-clear-of-the-empty-wing':
             grid = wn[clear[0]:clear[1]].copy()
             if len(grid) > 2 and rng.random() < 0.5:
                 grid = grid[1:-1] if clear[0] == 0 else grid[:-1]
@@ -560,6 +572,7 @@ def wl_opacity(ctx, rng):
             ctx.observe('request:work-array-refilled-in-place')
         else:
             work[len(grid)] = grid
+        asked.append(np.array(grid, dtype=float))
         led.lend(grid, 'requested grid')
         judge_request(ctx, op, t, p, grid, fullv, wn, layout, kind)
         led.settle('request ' + kind)
